@@ -69,6 +69,11 @@ CLAIMS = {
   text="Exploration of histories: operation lists (21 edit operations, 5 cache-warming reads, 10 read-only operations) are generated as data over random family graphs, and every sequence up to length 4 (thorough 5) over a 10-operation alphabet is enumerated on a fixed document. Immediately before each edit the selected views are read (so that caches are warm when the edit happens); after every edit and read-only step all views of the live document are read first and then compared with the same views on a fresh decode of Document.String(); read-only operations must leave the text byte-identical. Shrunk failing histories replay without rapid.",
   note="Trusted: views through public accessors only, compared as canonical strings; a view that panics must panic identically on the fresh decode. The live views are read before the fresh decode because decoding resets process-wide cache state. Document.SetNodes is not in the statement's edit list and not generated.",
   design="6.13"),
+ "C14": dict(
+  technique="robustness PBT (rapid) with structural fault injection into generated family graphs; oracle = exit status / stderr of the built CLI and recovered panics of library traversals; watchdogs for hangs",
+  text="Exploration: random family graphs are perturbed by combinations of 20 structural fault kinds (dangling, wrong-kind and empty references, missing/odd names incl. invalid UTF-8, self and cyclic relations, duplicate pointers, empty families, untitled sources, odd dates, ...). Every decodable file goes to the built gedcom binary with a rotating third of ~100 command lines (warnings; publish x visibility x page switches x jobs; diff x show x sort; 20 documented-style queries x 5 formats; two-document queries) - exit 0 or exit 1 with an ERROR: line, never a panic/fatal error/exit 2/hang - and through the library traversals behind the commands in process (recovered panics, in-memory publish in three modes, 30 s watchdog). A run keeps every distinct crash signature.",
+  note="Premise: the decoder accepts the file. A hang is two consecutive 20 s timeouts of a command that normally takes ~10 ms. 'tune' is not in the statement's list.",
+  design="6.14"),
  "C20": dict(
   technique="model-based PBT (rapid): warnings oracle evaluated on generated facts (day numbers) vs Document.Warnings(), metamorphic record/child reordering, CLI line count",
   text="Exploration: family graphs with exact dates are generated so that each warning condition is met or not met, with the boundaries that whole days decide generated exactly (sibling gaps 0/1/2/3 days, child born the day before/of/after a parent's birth, later-group events the day before/of an earlier-group event) and margins only around the approximate thresholds (16 and 100 years, 9 months). The expected multiset of (kind, people, dates) is computed from the blueprint alone and must equal the typed projection of Document.Warnings() (name, context, people named in the message), also after reversing records and children; the built 'gedcom warnings' binary must print exactly one line per warning.",
